@@ -20,7 +20,7 @@ ASSUMPTIONS = ['the channel list of each template (get_template(t).channel_ids, 
 
 def impl(case):
     with C.scratch_dir() as d:
-        m = D.load(D.write_dataset(d, case['spec']))
+        m = D.load(D.write_dataset(d, case['spec']), reopen=bool(case.get('reopen')))
         try:
             nt = int(m.n_templates)
             out = dict(n_templates=nt, n_clusters=int(m.n_clusters),
@@ -135,4 +135,4 @@ def gen(tier, rng):
     for i in range(250 if q else 5000):
         spec = DC.dense_spec(rng, curated=(i % 5 != 0), feats=False, empty=['none', 'last', 'random'][i % 3])
         sc = spec.get('spike_clusters') or spec['spike_templates']
-        yield dict(p=PID, spec=spec, cs=sorted(set(sc))[:6])
+        yield dict(p=PID, spec=spec, cs=sorted(set(sc))[:6], reopen=(i % 4 == 2))
